@@ -385,7 +385,7 @@ Module Ex.
        s_items := [IExpr (EAgg ACount None) "n"; IExpr (EAgg ASum (Some ["a"])) "sa";
                    IExpr (EAgg ASum (Some ["b"])) "sb"];
        s_distinct := false; s_order := []; s_limit := None; s_offset := None |}.
-  Definition ctx0 := {| c_data := [("t", VArr t8)]; c_ctes := []; c_busy := [] |}.
+  Definition ctx0 := {| c_data := [("t", VArr t8)]; c_ctes := []; c_busy := []; c_up := [] |}.
   Definition norec : qctx -> job -> res value := fun _ _ => OutOfModel.
   Definition passes (r : value) : bool :=
     match column "b" r with VNum b => PrimFloat.ltb 1 b | _ => false end.
